@@ -264,6 +264,9 @@ def _concrete_binop(rt, interp, opn, a, b, node):
             m = rt.lookup_method(a.cls, dunder)
             if m is not None:
                 return interp.call(rt.bind(m, a), [b], {})
+        if any(isinstance(v, Obj) and getattr(v.cls, "kind", "") == "builtin" for v in (a, b)):
+            # a model of a library class (timedelta, ...) says nothing about operators it does not list
+            raise Undecided("operator %s on the library object %r is not modelled" % (opn, a if isinstance(a, Obj) else b))
         interp.raise_py("TypeError", "unsupported operand types for %s" % opn)
     if opn == "Mod" and isinstance(a, str):
         args = b if isinstance(b, tuple) else (b,)
